@@ -287,6 +287,13 @@ fn one_story(ops: &[Value], tr: &mut Trace) -> String {
                         if let Some(d) = dev() {
                             let _ = d.open_basic_comm_window(900, &crypto, &());
                         }
+                        // a commissioner starts from scratch: it does not talk over the sessions of an earlier commissioning
+                        m.with_state(|s| {
+                            let ids: Vec<u32> = s.verif_snapshot().sessions.sessions.iter().map(|x| x.id).collect();
+                            for id in ids {
+                                s.verif_sessions_mut().remove(id);
+                            }
+                        });
                         let mut nb = [0u8; MAX_CERT_TLV_AND_ASN1_LEN];
                         let mut cbuf = [0u8; MAX_CERT_TLV_LEN];
                         let mut ng = if ci == 0 { NocGenerator::create(priv0.reference(), rcac0, &[], &mut nb)? } else { NocGenerator::create(priv1.reference(), rcac1, &[], &mut nb)? };
@@ -308,7 +315,22 @@ fn one_story(ops: &[Value], tr: &mut Trace) -> String {
                         if let Some(d) = dev() {
                             let _ = d.open_basic_comm_window(900, &crypto, &());
                         }
+                        // an administrator does not try to talk over a PASE session that the device has given up
+                        let dev_has = dev().map(|d| d.with_state(|s| s.verif_snapshot().sessions.sessions.iter().any(|x| x.mode == 1 && !x.expired))).unwrap_or(false);
+                        if !dev_has {
+                            m.with_state(|s| s.verif_sessions_mut().remove_pase(None));
+                        }
                         let r = Exchange::initiate_pase(m, &crypto, sim::addr(0), 20202021).await;
+                        rec["ok"] = json!(r.is_ok());
+                        rec["code"] = json!(r.err().map(|e| format!("{:?}", e.code())).unwrap_or_default());
+                    }
+                    "Case" => {
+                        // one more operational session of this administrator, next to the ones it holds already
+                        let r: Result<(), Error> = async {
+                            let ex = Exchange::initiate_plaintext(m, &crypto, sim::addr(0)).await?;
+                            rs_matter::sc::case::CaseInitiator::perform(ex, &crypto, fab, DEV_NODE_ID).await
+                        }
+                        .await;
                         rec["ok"] = json!(r.is_ok());
                         rec["code"] = json!(r.err().map(|e| format!("{:?}", e.code())).unwrap_or_default());
                     }
@@ -432,6 +454,15 @@ fn one_story(ops: &[Value], tr: &mut Trace) -> String {
                             }
                         }
                         rec["ok"] = json!(n > 0);
+                    }
+                    "FactoryReset" => {
+                        // Matter::factory_reset on the running node, then a power cycle
+                        let r = dev().map(|d| d.factory_reset(d.kv(RecKv(kvs.clone()))).is_ok()).unwrap_or(false);
+                        rec["reset_ok"] = json!(r);
+                        restart.signal(());
+                        let ok = booted.wait().await;
+                        inc.borrow_mut().sess.clear();
+                        rec["ok"] = json!(ok && r);
                     }
                     "Restart" => {
                         // a power cut: optionally the last `cut` store operations never reached the store
